@@ -101,6 +101,9 @@ def _attr_read_in_cursor_methods(prog, cls, attr):
     return None
 
 
+CHILD_PATHS = ("self.a", "self.b", "self.child", "self.matchers", "self._matchers", "self.wanted_parent_matcher")
+
+
 @rule("C11", "R2", "K6", "copy()/replace() rebuild a matcher with everything its cursor behaviour depends on",
       min_instances=15,
       clause="Every self.__class__(...) / Cls(...) in copy, _replacement and replace fits the target __init__ "
@@ -119,6 +122,19 @@ def c11_r2(ctx):
             f = prog.lookup(cls, m)
             if f is None or is_abstract_body(f):
                 continue
+            if m == "copy" and ("copy-args", f.qualname) not in seen:
+                # whatever copy() calls to build the result (the constructor, a helper such as _replacement): a child matcher
+                # handed over as an argument must be a .copy() of it, never the child itself (the two would share one cursor)
+                seen.add(("copy-args", f.qualname))
+                fal = norm.aliases(f.node)
+                for call in norm.calls_in(f.node):
+                    for a_ in list(call.args) + [k.value for k in call.keywords]:
+                        t = norm.canon(a_, fal)
+                        if t in CHILD_PATHS:
+                            ctx.saw(f)
+                            ctx.ob(f, False, "child %s is passed as a copy" % t,
+                                   detail="%s hands the child itself to %s: the copy shares the child's cursor with the original" % (
+                                       f.short, norm.canon(call.func)), loc=ctx.nodeloc(f, call))
             if m == "_replacement":
                 rp = prog.lookup(cls, "replace")
                 if rp is None or not any(norm.call_name(c) == "_replacement" for c in norm.calls_in(rp.node)):
